@@ -20,14 +20,14 @@ use vstd::std_specs::cmp::OrdSpec;
 //@map /Arc::clone\(&slot\)/ => slot.clone()
 //@map /Arc::new\(Self::new_full\(/ => (Self::vx_new_full(
 //@map /Box::new\(ChannelCommitmentPointProvider::new\(/ => (VxProvider::new(
-//@map /node\.keys_manager\./ => node.vx_keys_manager().
+//@map /node\s*\.keys_manager\s*\./ => node.vx_keys_manager().
 //@map /\bNode::channel_setup_to_channel_transaction_parameters/ => VxNode::channel_setup_to_channel_transaction_parameters
 //@map /node\.channels\.lock\(\)\.vx_expect\(\)/ => node.vx_lock_channels()
 //@map /services\s*\.persister\s*\.get_tracker\(/ => services.vx_get_tracker(
 //@map /services\.persister\.clone\(\)/ => services.vx_persister()
 //@map /services\.validator_factory\.clone\(\)/ => services.vx_validator_factory()
 //@map /services\.trusted_oracle_pubkeys\.clone\(\)/ => services.vx_trusted_oracle_pubkeys()
-//@map /self\.keys_manager\./ => self.vx_keys_manager().
+//@map /self\s*\.keys_manager\s*\./ => self.vx_keys_manager().
 //@map /self\.persister\s*\.new_channel\(/ => self.vx_persist_new_channel(
 //@map /slot\.lock\(\)\.vx_expect\(\)\.clone\(\)/ => slot.vx_get()
 //@map /Secp256k1::signing_only\(\)/ => VxSecp::signing_only()
